@@ -47,8 +47,10 @@ Record case := mk {
   c_sim : option (list (bytes * checks));   (* SimulateActions: None = error, else per action (output, stateKeys) *)
   c_tx : list bytes * bool;                 (* Transaction.Execute, actions with their own declarations: Outputs,
                                                Success; ([], false) when Execute returned an error (StateKeys) *)
-  c_tx_sim : option (list bytes * bool)     (* when simulation succeeded: Transaction.Execute of the same scripts
+  c_tx_sim : option (list bytes * bool);    (* when simulation succeeded: Transaction.Execute of the same scripts
                                                whose actions declare exactly the simulated keys *)
+  c_exec_sim : option (list bytes * bool)   (* when simulation succeeded: ExecuteActions of the same scripts, each
+                                               action declaring exactly the key set simulation reported FOR IT *)
 }.
 
 Definition acts_of (c : case) : list (checks * prog) :=
@@ -68,17 +70,25 @@ Definition check_case (c : case) : bool :=
        | None, None => true
        | _, _ => false
        end
+    && match c_sim c, c_exec_sim c with
+       | Some rs, Some e => outs_eqb (run_exec base [] (combine (map snd rs) (progs c))) e
+       | None, None => true
+       | _, _ => false
+       end
   else
     (* a malformed action: both handlers return an error before executing anything, no transaction parses *)
     outs_eqb ([], false) (c_exec c) && sim_eqb None (c_sim c) && outs_eqb ([], false) (c_tx c)
-    && match c_tx_sim c with None => true | Some _ => false end.
+    && match c_tx_sim c with None => true | Some _ => false end
+    && match c_exec_sim c with None => true | Some _ => false end.
 
 (* The property on the implementation's outputs (no model).  For well-formed action lists:
    1. when the actions can form a transaction (every declared key is a valid key): the outputs ExecuteActions
       returned are a prefix of the transaction's outputs, and when every action succeeded they are all of them
       and the transaction succeeded;
    2. when the transaction succeeded, SimulateActions succeeded with the same outputs;
-   3. when SimulateActions succeeded, the transaction declaring the reported keys succeeded with the same outputs.
+   3. when SimulateActions succeeded, the transaction declaring the reported keys succeeded with the same outputs;
+   4. when SimulateActions succeeded, ExecuteActions with every action declaring exactly the key set reported for
+      that action succeeded with the same outputs (the per-action sets are sufficient, not only their union).
    Malformed action bytes: both handlers refuse. *)
 Definition decls_valid_b (c : case) : bool :=
   forallb (fun '(d, _) => forallb (fun '(k, _) => Nat.leb 2 (length k)) d) (c_acts c).
@@ -92,6 +102,10 @@ Definition spec_ok (c : case) : bool :=
         match c_sim c with Some rs => list_eqb bytes_eqb (map fst rs) (fst (c_tx c)) | None => false end)
     && match c_sim c with
        | Some rs => match c_tx_sim c with Some t => outs_eqb (map fst rs, true) t | None => false end
+       | None => true
+       end
+    && match c_sim c with
+       | Some rs => match c_exec_sim c with Some e => outs_eqb (map fst rs, true) e | None => false end
        | None => true
        end
   else
